@@ -201,7 +201,8 @@ def handle (j : Json) : R Json := do
   let nul ← natList j "nul"
   let fix12 := (j.getObjValAs? Bool "fix12").toOption.getD true
   let fix13 := (j.getObjValAs? Bool "fix13").toOption.getD true
-  let c : Cfg := { imm := fun x => imm.contains x, nul := fun x => nul.contains x, fix12 := fix12, fix13 := fix13 }
+  let fixResub := (j.getObjValAs? Bool "fixResub").toOption.getD true
+  let c : Cfg := { imm := fun x => imm.contains x, nul := fun x => nul.contains x, fix12 := fix12, fix13 := fix13, fixResub := fixResub }
   let ops ← getArr j "ops"
   let mut d : D := { s := init c }
   let mut digs : Array Json := #[]
